@@ -202,6 +202,22 @@ func (m *Machine) ifaceModel(st *State, fr *Frame, instr ssa.Instruction, iname 
 		m.addEvent(st, iname, all, nil)
 		m.timePasses(st)
 		return nil
+	case iname == "Dialer.DialContext":
+		use("Dialer: on success returns a new, unconnected BaseClient with a transport")
+		rets := m.freshRets(st, sig, "dial")
+		cli := rets[0].(*Ptr)
+		err := rets[1].(*Iface)
+		tr := m.Load(st, &Ptr{Mem: cli.Mem, Ref: cli.Ref, Path: "Transport", Elem: m.fieldType(cli.Elem, "Transport")}).(*Iface)
+		st.assume(c.Implies(c.Eq(err.Tag, c.Int(0)), c.And(c.Neq(cli.Ref, c.Int(0)), c.Neq(tr.Tag, c.Int(0)))))
+		m.addEvent(st, iname, all, rets)
+		m.timePasses(st)
+		return rets
+	case iname == "Client.Ping":
+		use("Client.Ping: returns (the implementation is the library's own client or a user's)")
+		rets := m.freshRets(st, sig, "ping")
+		m.addEvent(st, iname, all, rets)
+		m.timePasses(st)
+		return rets
 	case iname == "interface{Unwrap() error}.Unwrap":
 		use("pure")
 		rets := []Value{&Iface{c.App("unwrapTag", IntSort, recv.Tag, recv.Val), c.App("unwrapVal", IntSort, recv.Tag, recv.Val)}}
@@ -383,7 +399,11 @@ func (m *Machine) makeChanRaw(st *State, site string) *Term {
 }
 
 func (m *Machine) makeChan(st *State, t types.Type) *Term {
-	return m.makeChanRaw(st, "make(chan)")
+	r := m.makeChanRaw(st, "make(chan)")
+	if ct, ok := t.Underlying().(*types.Chan); ok {
+		st.assume(m.ctx.Eq(m.ctx.App("chanElemT", IntSort, r), m.ctx.Int(m.typeCode(ct.Elem()))))
+	}
+	return r
 }
 
 // chanClosed: ghost "channel ch is closed now". Monotone over time (chanVer).
@@ -392,7 +412,7 @@ func (m *Machine) chanClosed(st *State, ch *Term) *Term {
 	// explicit closes performed on this path
 	a := m.heapGet(st, "chan.closedByMe", ArrSort(IntSort, BoolSort))
 	mine := c.Select(a, ch)
-	if m.isLocalRef(st, ch) {
+	if m.isLocalRef(st, ch) || (m.spawnLocal != nil && m.spawnLocal[ch.id]) {
 		return mine
 	}
 	if st.closerFresh[ch.id] && !st.closerSpawned {
@@ -555,12 +575,39 @@ func (m *Machine) selectStmt(st *State, fr *Frame, x *ssa.Select) {
 
 func (m *Machine) goStmt(st *State, fr *Frame, x *ssa.Go) {
 	var args []Value
+	preLocal := map[int]bool{}
+	noteLocal := func(v ssa.Value) {
+		if _, isCh := v.Type().Underlying().(*types.Chan); isCh {
+			if t, ok := m.val(st, fr, v).(*Term); ok && m.isLocalRef(st, t) {
+				preLocal[t.id] = true
+			}
+		}
+		if pt, isPtr := v.Type().Underlying().(*types.Pointer); isPtr {
+			if _, isCh := pt.Elem().Underlying().(*types.Chan); isCh {
+				// captured variable cell holding a channel
+				if p, ok := m.val(st, fr, v).(*Ptr); ok && m.isLocalRef(st, p.Ref) {
+					if t, ok := m.Load(st, p).(*Term); ok && m.isLocalRef(st, t) {
+						preLocal[t.id] = true
+					}
+				}
+			}
+		}
+	}
+	for _, a := range x.Call.Args {
+		noteLocal(a)
+	}
+	if mc, ok := x.Call.Value.(*ssa.MakeClosure); ok {
+		for _, b := range mc.Bindings {
+			noteLocal(b)
+		}
+	}
 	for _, a := range x.Call.Args {
 		v := m.val(st, fr, a)
 		m.escapeValue(st, a.Type(), v)
 		args = append(args, v)
 	}
 	name := "go"
+	var evArgs []Value
 	if fn := x.Call.StaticCallee(); fn != nil {
 		name = "go:" + relName(fn)
 		for _, owner := range m.P.Contracts.Closers {
@@ -572,13 +619,17 @@ func (m *Machine) goStmt(st *State, fr *Frame, x *ssa.Go) {
 			v := m.val(st, fr, mc).(*Term)
 			m.escapeRef(st, v)
 			m.escapeClosureContents(st, v)
+			evArgs = append(append([]Value{}, args...), v) // event argument: the closure itself, after the call arguments
 		}
 	} else if x.Call.IsInvoke() {
 		recv := m.val(st, fr, x.Call.Value).(*Iface)
 		args = append([]Value{recv}, args...)
 		name = "go:" + m.ts.typeName(x.Call.Value.Type()) + "." + x.Call.Method.Name()
 	}
-	m.addEvent(st, name, args, nil)
+	if evArgs == nil {
+		evArgs = args
+	}
+	m.addEvent(st, name, evArgs, nil)
 	// the spawned function's precondition must hold at the spawn
 	if fn := x.Call.StaticCallee(); fn != nil {
 		if fc := m.P.Contracts.Funcs[relName(fn)]; fc != nil && len(fc.Requires) > 0 {
@@ -595,7 +646,9 @@ func (m *Machine) goStmt(st *State, fr *Frame, x *ssa.Go) {
 				}
 			}
 			for i, r := range fc.Requires {
+				m.spawnLocal = preLocal
 				v, ok := m.evalClause(st, r, bind)
+				m.spawnLocal = nil
 				if !ok {
 					continue
 				}
@@ -805,4 +858,14 @@ func (m *Machine) obligeSendInv(st *State, fr *Frame, ins ssa.Instruction, elem 
 	if p, isP := v.(*Ptr); isP {
 		m.oblige(st, fr, "chan.nonnil", fmt.Sprint(m.ordinal(fr.fn, ins, "")), m.ctx.Neq(p.Ref, m.ctx.Int(0)), m.safeTags(), "values sent on channels of "+m.ts.typeName(elem)+" are non-nil (channel invariant)")
 	}
+}
+
+func (m *Machine) fieldType(t types.Type, name string) types.Type {
+	stt := t.Underlying().(*types.Struct)
+	for i := 0; i < stt.NumFields(); i++ {
+		if stt.Field(i).Name() == name {
+			return stt.Field(i).Type()
+		}
+	}
+	panic("no field " + name)
 }
